@@ -7,7 +7,13 @@
    map is stated for ANY two keys; whatever they derive from "the entries in some order, sorted by SortIndex" is stated
    for ANY permutation [order] of the entries.  Scenario names range over all byte strings satisfying the boolean
    predicate shown; run counts R, run numbers r, and the archive (hence its size n) are unrestricted
-   (R = 0 is treated as 1 by the runner itself; r is not even required to be within 1..R).  *)
+   (R = 0 is treated as 1 by the runner itself; r is not even required to be within 1..R).
+
+   Predicates (Saver.v):  no_nl name      = no line break in the name            (naming theorems; the regexps' [.] stops at a
+                                                                                   line break, names with one are not covered here)
+                          label_safe name = the name contains neither the text "(1/1)" nor the text "As-Is"   (label theorems;
+                                            tight: see the two _boundary examples at the end)
+                          plain_name      = both.   The completeness / faithfulness theorems need no condition on the name. *)
 From Coq Require Import String Ascii List Bool Arith Permutation.
 From Crem Require Import Base.Res Saver SaverProofs.
 Import ListNotations.
